@@ -251,6 +251,24 @@ impl TreeSys for Fam {
     }
 }
 
+/// long structured series (DESIGN 5.14): every lag of the band around the (large) length, long null runs
+fn maps_long(thorough: bool, threads: usize, alpha: &[X]) -> Ctx {
+    let lens: Vec<usize> = if thorough { vec![24, 40, 130] } else { vec![24] };
+    let mut items: Vec<(String, Vec<X>)> = vec![];
+    for len in lens {
+        items.extend(rollcheck::structured_shapes(len, true).into_iter().enumerate().filter(|(i, _)| i % 2 == 0).map(|(_, s)| s));
+    }
+    par_items(&items, threads, |(_l, x), ctx| {
+        let fam = "maps-long";
+        ctx.states += 1;
+        ctx.transitions += 1;
+        ctx.fam(fam).states += 1;
+        ctx.nontrivial(fam, hash_u64s(&x.iter().map(|v| v.map_or(7, |a| a.to_bits())).collect::<Vec<_>>()));
+        check_ty::<f64>(fam, "f64", &[], x, alpha, ctx, true, num_runner::<f64>);
+        check_ty::<Option<f64>>(fam, "Option<f64>", &[], x, alpha, ctx, false, any_runner::<Option<f64>>);
+    })
+}
+
 fn main() {
     let run = Run::from_args("C13");
     let fam = Fam { alpha: vec![None, Some(-1.0), Some(0.0), Some(2.0)], max_len: run.pick(6, 9), backend_len: run.pick(3, 5) };
@@ -260,12 +278,19 @@ fn main() {
             std::process::exit(2)
         });
         let mut ctx = Ctx::new();
-        fam.check_word(&syms_from_json(&stored["case"]["word"]), &mut ctx);
+        if stored["case"]["family"] == "maps-long" {
+            let x = word_from_json(&stored["case"]["series"]);
+            check_ty::<f64>("maps-long", "f64", &[], &x, &fam.alpha, &mut ctx, true, num_runner::<f64>);
+            check_ty::<Option<f64>>("maps-long", "Option<f64>", &[], &x, &fam.alpha, &mut ctx, false, any_runner::<Option<f64>>);
+        } else {
+            fam.check_word(&syms_from_json(&stored["case"]["word"]), &mut ctx);
+        }
         std::process::exit(finish_replay(&run, &stored, ctx));
     }
-    let total = explore_tree(&fam, run.threads);
+    let mut total = explore_tree(&fam, run.threads);
+    total.merge(maps_long(!run.quick(), run.threads, &fam.alpha));
     let meta = Meta {
-        rule: "history tree of every word over {null,-1,0,2}; at each word every operation (shift, vshift, vdiff, vpct_change with every lag in -len-3..=len+3 and i32::MIN/MAX and every fill; ffill/bfill/fill and their mask forms; vclip with every ordered and unordered pair of bounds incl. null; abs, vabs) on f64/f32/i32/Option<f64>/Option<i32>, consumed by plain safe iteration and compared element by element with the positional definition; length law; clip containment and idempotence; short words on every input back end. Non-trivial = word with a non-null element.".into(),
+        rule: "history tree of every word over {null,-1,0,2}; at each word every operation (shift, vshift, vdiff, vpct_change with every lag in -len-3..=len+3 and i32::MIN/MAX and every fill; ffill/bfill/fill and their mask forms; vclip with every ordered and unordered pair of bounds incl. null; abs, vabs) on f64/f32/i32/Option<f64>/Option<i32>, consumed by plain safe iteration and compared element by element with the positional definition; length law; clip containment and idempotence; short words on every input back end; the same operations on long structured series (24 / 40 / 130 elements, null blocks and periodic nulls). Non-trivial = word with a non-null element.".into(),
         bounds: json!({"alphabet": json_word(&fam.alpha), "L": fam.max_len, "backend_L": fam.backend_len, "lags": "-len-3..=len+3, i32::MIN, i32::MAX", "fills": ["omitted", "null", 7]}),
         assumptions: vec!["vclip with lower > upper: only length and null preservation (DESIGN 5.6)".into(), "vdiff on numeric element types only (needs Sub), DESIGN 5.8".into()],
         exhaustive: true,
